@@ -218,6 +218,7 @@ fn ctx_zoo(which: usize) -> Value {
         fl => 1.5, nan => f64::NAN, inf => f64::INFINITY, ninf => f64::NEG_INFINITY, fbig => 1e300, nzero => -0.0f64,
         s => "hello", es => "", ms => "héllo wörld\n  line2\n\n€ line4\r\n", fmt => "%s|%5d|{}",
         safe => Value::from_safe_string("<b>safe</b>".into()),
+        pfmt => "<%s>|%s|%s", sfmt => Value::from_safe_string("<%s>|%s|{}{}".into()),
         long => "ab".repeat(200),
         by => Value::from_bytes(vec![0, 159, 146, 150]),
         xs => vec![1, 2, 3], exs => Vec::<i32>::new(), ss => vec!["b", "A", "c"],
@@ -360,11 +361,109 @@ fn finish(r: Result<Result<String, Error>, String>) -> String {
     }
 }
 
+// ---- configuration axis --------------------------------------------------------------------
+/// number of syntax configurations (`syntax_cfg`)
+const NSYN: usize = 6;
+
+/// (block, variable, comment delimiters, line statement prefix, line comment prefix) of syntax
+/// configuration `syn` (0 = the default syntax)
+fn syntax_parts(syn: usize) -> ([&'static str; 6], Option<&'static str>, Option<&'static str>) {
+    match syn % NSYN {
+        0 => (["{%", "%}", "{{", "}}", "{#", "#}"], None, None),
+        // ERB / shell like
+        1 => (["<%", "%>", "${", "}", "<#", "#>"], None, None),
+        // the default delimiters plus line statements and line comments
+        2 => (["{%", "%}", "{{", "}}", "{#", "#}"], Some("#"), Some("##")),
+        // start delimiters that are prefixes of each other, end delimiters too
+        3 => (["{{%", "%}}", "{{", "}}", "{{#", "#}}"], Some("%%"), None),
+        // multi-byte delimiters and prefixes
+        4 => (["«%", "%»", "«", "»", "«#", "#»"], Some("§"), Some("§§")),
+        // end delimiters that begin with the whitespace-control characters
+        _ => (["[-", "-]", "[+", "+]", "[*", "*]"], Some("-"), Some("//")),
+    }
+}
+
+/// a template written in the default syntax rewritten into syntax configuration `syn` (token by token)
+fn translate_syntax(src: &str, syn: usize) -> String {
+    let (d, _, _) = syntax_parts(syn);
+    if syn % NSYN == 0 || syn % NSYN == 2 {
+        return src.to_string();
+    }
+    let from = ["{%", "%}", "{{", "}}", "{#", "#}"];
+    let mut out = String::with_capacity(src.len() + 16);
+    let mut i = 0;
+    'outer: while i < src.len() {
+        for (k, f) in from.iter().enumerate() {
+            if src[i..].starts_with(f) {
+                out.push_str(d[k]);
+                i += f.len();
+                continue 'outer;
+            }
+        }
+        let c = src[i..].chars().next().unwrap();
+        out.push(c);
+        i += c.len_utf8();
+    }
+    out
+}
+
+/// The configuration of a `t` / `e` case: its context/configuration number is `ctx + 4 * cfg`,
+/// cfg = ub + 4 * (ws + 8 * (syn + NSYN * misc)): undefined behaviour (4) x trim_blocks / lstrip_blocks /
+/// keep_trailing_newline (8) x syntax configuration (NSYN) x {-, debug off, recursion limit 3, .json name}.
+/// cfg 0 is the default environment.
+fn apply_cfg(env: &mut Environment<'static>, cfg: usize) {
+    use minijinja::UndefinedBehavior as U;
+    if cfg == 0 {
+        return;
+    }
+    env.set_undefined_behavior(match cfg % 4 {
+        0 => U::Lenient,
+        1 => U::Chainable,
+        2 => U::SemiStrict,
+        _ => U::Strict,
+    });
+    let ws = (cfg / 4) % 8;
+    env.set_trim_blocks(ws & 1 != 0);
+    env.set_lstrip_blocks(ws & 2 != 0);
+    env.set_keep_trailing_newline(ws & 4 != 0);
+    let syn = (cfg / 32) % NSYN;
+    if syn != 0 {
+        let (d, ls, lc) = syntax_parts(syn);
+        let mut b = minijinja::syntax::SyntaxConfig::builder();
+        b.block_delimiters(d[0], d[1]).variable_delimiters(d[2], d[3]).comment_delimiters(d[4], d[5]);
+        if let Some(p) = ls {
+            b.line_statement_prefix(p);
+        }
+        if let Some(p) = lc {
+            b.line_comment_prefix(p);
+        }
+        if let Ok(sc) = b.build() {
+            env.set_syntax(sc);
+        }
+    }
+    match (cfg / (32 * NSYN)) % 4 {
+        1 => env.set_debug(false),
+        2 => env.set_recursion_limit(3),
+        _ => {}
+    }
+}
+
+fn cfg_template_name(which: usize) -> &'static str {
+    if ((which / 4) / (32 * NSYN)) % 4 == 3 {
+        "case.json"
+    } else if which % 2 == 0 {
+        "case.txt"
+    } else {
+        "case.html"
+    }
+}
+
 fn run_template(label: &str, which: usize, src: &str) -> String {
     let fuel = if label.starts_with("mut") { Some(50_000) } else { None };
     with_tie(finish(guarded(|| {
         let mut env = make_env(fuel);
-        let name = if which % 2 == 0 { "case.txt" } else { "case.html" };
+        apply_cfg(&mut env, which / 4);
+        let name = cfg_template_name(which);
         env.add_template_owned(name.to_string(), src.to_string())?;
         let t = env.get_template(name)?;
         let out = t.render(ctx_zoo(which))?;
@@ -374,7 +473,8 @@ fn run_template(label: &str, which: usize, src: &str) -> String {
 
 fn run_expr(_label: &str, which: usize, src: &str) -> String {
     with_tie(finish(guarded(|| {
-        let env = make_env(Some(50_000));
+        let mut env = make_env(Some(50_000));
+        apply_cfg(&mut env, which / 4);
         let ex = env.compile_expression(src)?;
         let v = ex.eval(ctx_zoo(which))?;
         let s = format!("{}|{:?}", v, v);
@@ -452,6 +552,41 @@ fn run_kernel(f: &[&str]) -> String {
             Ok(format!("ok:{}", out))
         })),
         // k mulstr L N SIDE → ok:<len>
+        // k intop OP A B → ok:<integer> : the VM's integer arithmetic (ops.rs) / the abs filter on
+        // integers of every width; `k intoplit` the same through literals (constant folding at compile time)
+        "intop" | "intoplit" => finish(guarded(|| {
+            let lit = f[0] == "intoplit";
+            let (a, b) = if lit { (format!("({})", f[2]), format!("({})", f[3])) } else { ("a".to_string(), "b".to_string()) };
+            let src = match f[1] {
+                "add" => format!("{} + {}", a, b),
+                "sub" => format!("{} - {}", a, b),
+                "mul" => format!("{} * {}", a, b),
+                "rem" => format!("{} % {}", a, b),
+                "intdiv" => format!("{} // {}", a, b),
+                "pow" => format!("{} ** {}", a, b),
+                "neg" => format!("-{}", a),
+                "abs" => format!("{}|abs", a),
+                _ => return Ok("bad-case".into()),
+            };
+            let ex = env.compile_expression_owned(src)?;
+            let v = ex.eval(context! { a => int_value(f[2]), b => int_value(f[3]) })?;
+            if !matches!(v.kind(), minijinja::value::ValueKind::Number) {
+                return Ok(format!("ok:?{}", v.kind()));
+            }
+            Ok(format!("ok:{}", v))
+        })),
+        // k reprstr CP,CP,… → ok:<bytes of the repr> : `{:?}` of a string value (python_string_debug_fmt)
+        "reprstr" => finish(guarded(|| {
+            let st: String = if f[1] == "_" { String::new() } else { f[1].split(',').filter_map(|t| t.parse::<u32>().ok().and_then(char::from_u32)).collect() };
+            let long = Value::from(format!("{:?}", Value::from(st.clone()))).len().unwrap_or(0);
+            // the same through a template: element of a printed list (SmallStr and String representations)
+            let ex = env.compile_expression("[v]|string|length")?;
+            let via = ex.eval(context! { v => st })?;
+            if via != Value::from(long + 2) {
+                return Ok(format!("ok:{}!={}", long, via));
+            }
+            Ok(format!("ok:{}", format!("{:?}", Value::from(f[1].split(',').filter_map(|t| t.parse::<u32>().ok().and_then(char::from_u32)).collect::<String>())).len()))
+        })),
         "mulstr" => finish(guarded(|| {
             let l: usize = f[1].parse().unwrap();
             let src = if f[3] == "l" { "(s * n)|length" } else { "(n * s)|length" };
@@ -502,6 +637,8 @@ fn run_kernel(f: &[&str]) -> String {
                 "ps" => (format!("%{}s", f[2]), Value::from(7)),
                 "pp" => (format!("%.{}f", f[2]), Value::from(7.0)),
                 "pg" => (format!("%.{}g", f[2]), Value::from(1.5)),
+                "ph" => (format!("%.{}g", f[2]), Value::from(0.0001234)),
+                "sh" => (format!("{{:.{}g}}", f[2]), Value::from(0.0001234)),
                 "sw" => (format!("{{:{}}}", f[2]), Value::from(7)),
                 "sz" => (format!("{{:0{}}}", f[2]), Value::from(7)),
                 "sc" => (format!("{{:^{}}}", f[2]), Value::from(7)),
@@ -1019,6 +1156,9 @@ fn depth_source(kind: &str, n: usize) -> (String, bool) {
             "longname" => format!("{{{{ {} }}}}{{{{ x.{} }}}}{{{{ x|{} }}}}", "v".repeat(n.max(1)), "a".repeat(n.max(1)), "f".repeat(n.max(1))),
             "longstr" => format!("{{{{ '{}'|length }}}}", "s".repeat(n)),
             "bigint" => format!("{{{{ {} }}}}", "9".repeat(n.max(1))),
+            // the VALUE n (and its neighbours) printed, negated, converted, formatted, as a loop index
+            "intval" => format!("{{{{ {n} }}}}{{{{ -{n} }}}}{{{{ {n}|string }}}}{{{{ [{m}, {n}, {p}] }}}}{{{{ {n} ~ '' }}}}{{{{ '%d|%5d|%x'|format({n}, {m}, {p}) }}}}{{{{ {{'k': {n}}} }}}}{{{{ {n}|tojson }}}}{{{{ ({n} + 0)|abs }}}}{{% for i in range({m}, {p} + 1) %}}{{{{ i }}}}{{{{ loop.index }}}}{{% endfor %}}{{{{ {n}.5 }}}}{{{{ {n}|float }}}}", n = n, m = n.saturating_sub(1), p = n + 1),
+            "loopindex" => format!("{{% for i in range({}) %}}{{{{ loop.index0 }}}}{{{{ loop.revindex }}}}{{% endfor %}}{{% for i in range({}) %}}{{{{ i }}}}{{% endfor %}}", (n + 2).min(70_000), (n + 2).min(70_000)),
             _ => String::new(),
         };
         return (src, true);
@@ -1123,7 +1263,7 @@ fn depth_source(kind: &str, n: usize) -> (String, bool) {
 pub const WIDTH_KINDS: &[&str] = &[
     "filters", "tests", "filterchain", "filterblk", "macros", "blocks", "vars", "sets", "kwargs", "callargs", "macroargs", "macrodefaults",
     "callblkargs", "with", "looptargets", "unpack", "includelist", "includes", "imports", "importas", "nsattrs", "nskwargs", "closure",
-    "dotted", "loops", "ifs", "lines", "longline", "longname", "longstr", "bigint",
+    "dotted", "loops", "ifs", "lines", "longline", "longname", "longstr", "bigint", "intval", "loopindex",
 ];
 
 /// integer constants of `compiler/` and `vm/` (and the limits in `utils.rs`): `const NAME: T = N`,
@@ -1221,6 +1361,8 @@ fn run_depth(kind: &str, n: usize) -> String {
     }
 }
 
+const FMT_ARGSETS: usize = 26;
+
 /// argument sets for the direct calls of `minijinja::formatting::format`
 fn fmt_args(which: usize) -> Vec<Value> {
     use minijinja::value::Kwargs;
@@ -1231,7 +1373,28 @@ fn fmt_args(which: usize) -> Vec<Value> {
         ("k", Value::from(Serde(serde_json::json!({"é": "v"})))),
         ("日本", Value::from("x")),
     ]));
-    match which % 6 {
+    match which % FMT_ARGSETS {
+        // 6..: one argument of every kind (the value a single conversion consumes)
+        6 => vec![Value::from("é€𝄞")],
+        7 => vec![Value::from("a€b")],
+        8 => vec![Value::from("")],
+        9 => vec![Value::from_safe_string("<é>".into())],
+        10 => vec![Value::from(f64::NAN)],
+        11 => vec![Value::from(-0.0f64)],
+        12 => vec![Value::from(0.0001234f64)],
+        13 => vec![Value::from(1e300f64)],
+        14 => vec![Value::from(true)],
+        15 => vec![Value::from(())],
+        16 => vec![Value::UNDEFINED],
+        17 => vec![Value::from(vec![Value::from("é"), Value::from(1)])],
+        18 => vec![Value::from(u128::MAX)],
+        19 => vec![Value::from(i64::MIN)],
+        20 => vec![Value::from(i128::MIN)],
+        21 => vec![Value::from(0)],
+        22 => vec![Value::from(0x10FFFF)],
+        23 => vec![Value::from(0xD800)],
+        24 => vec![Value::from_bytes(vec![0xff, 0x00, 0xc3])],
+        25 => vec![Value::from(-1)],
         0 => vec![],
         1 => vec![Value::from(1)],
         2 => vec![Value::from(1.5), Value::from("é€𝄞"), Value::from(-3)],
@@ -1677,6 +1840,10 @@ fn modes_of<'a>(case: &str, modes: &[&'a str]) -> Vec<&'a str> {
         // the recorded cyclic-namespace recursion (known finding) takes ~10 s to exhaust an 8 MiB stack:
         // the variants through a list / map run on the 2 MiB thread only
         modes.iter().rev().take(1).cloned().collect()
+    } else if case.starts_with("f ") || case.starts_with("k intop") || case.starts_with("k reprstr") {
+        // shallow, iteration-free code: the thread does not matter, the two threads share the cases
+        let h = case.bytes().fold(0u32, |h, b| h.wrapping_mul(31).wrapping_add(b as u32));
+        modes.iter().skip((h % 2) as usize).take(1).cloned().collect()
     } else {
         modes.to_vec()
     }
@@ -1706,7 +1873,10 @@ fn run_all(cases: Vec<String>, modes: &[&str], timeout: Duration) {
             continue;
         }
         for mode in modes {
-            queue.push_back((mode.to_string(), part.clone()));
+            let mine: Vec<(usize, String)> = part.iter().filter(|(_, c)| modes_of(c, modes).contains(mode)).cloned().collect();
+            if !mine.is_empty() {
+                queue.push_back((mode.to_string(), mine));
+            }
         }
     }
     let queue = std::sync::Arc::new(Mutex::new(queue));
@@ -2008,6 +2178,42 @@ fn gen_builtin_cases(out: &mut Vec<String>, rng: &mut Rng, thorough: bool) {
             out.push(format!("t esc:string {} {}", i % 2, hex(src.as_bytes())));
         }
     }
+    // the escape grammar of string literals: every escape kind at its boundary values, alone and in ordered
+    // pairs (surrogates), in every literal position (expression, filter argument, map key, statement)
+    {
+        let octal = ["\\0", "\\7", "\\8", "\\00", "\\07", "\\77", "\\78", "\\177", "\\200", "\\377", "\\400", "\\477", "\\777", "\\0000", "\\3777", "\\1é"];
+        let hexb = ["\\x00", "\\x7f", "\\x80", "\\xff", "\\xFF", "\\x0", "\\x", "\\xg0", "\\x0g", "\\xé", "\\x7é", "\\X41"];
+        let uni = ["\\u0000", "\\u007f", "\\u0080", "\\u07ff", "\\u0800", "\\ud7ff", "\\ud800", "\\udbff", "\\udc00", "\\udfff", "\\ue000", "\\uffff",
+            "\\uD800", "\\uDFFF", "\\u000", "\\u00g0", "\\u+123", "\\u-123", "\\u 123", "\\ué000", "\\u00é"];
+        let simple = ["\\n", "\\\\", "\\'", "\\\"", "\\/", "\\b", "\\f", "\\r", "\\t", "\\a", "\\v", "\\e", "\\N", "\\é", "\\ ", "\\\n"];
+        let mut lits: Vec<String> = vec![];
+        for l in octal.iter().chain(hexb.iter()).chain(uni.iter()).chain(simple.iter()) {
+            lits.push(l.to_string());
+            lits.push(format!("a{}", l));
+            lits.push(format!("{}é", l));
+        }
+        for a in uni.iter().take(14) {
+            for b in uni.iter().take(14) {
+                lits.push(format!("{}{}", a, b));
+            }
+            for b in octal.iter().take(4).chain(hexb.iter().take(2)).chain(simple.iter().take(2)) {
+                lits.push(format!("{}{}", a, b));
+                lits.push(format!("{}{}", b, a));
+            }
+        }
+        for (i, lit) in lits.iter().enumerate() {
+            let q = if i % 2 == 0 { "'" } else { "\"" };
+            let src = match i % 4 {
+                0 | 1 => format!("{{{{ {q}{lit}{q} }}}}{{{{ {q}{lit}{q}|length }}}}{{{{ [{q}{lit}{q}] }}}}"),
+                2 => format!("{{{{ {{{q}{lit}{q}: 1}} }}}}{{{{ s|replace({q}{lit}{q}, {q}x{q}) }}}}{{{{ m[{q}{lit}{q}] }}}}"),
+                _ => format!("{{% set v = {q}{lit}{q} %}}{{{{ v|tojson }}}}{{% include {q}{lit}{q} ignore missing %}}{{{{ v ~ {q}{lit}{q} }}}}"),
+            };
+            out.push(format!("t esc:grammar {} {}", i % 2, hex(src.as_bytes())));
+            if i % 3 == 0 {
+                out.push(format!("e esc:grammar {} {}", i % 2, hex(format!("{q}{lit}{q}").as_bytes())));
+            }
+        }
+    }
     // operators on the zoo (binary + unary + subscripts), incl. the lazily concatenated/repeated objects
     let ops = ["+", "-", "*", "/", "//", "%", "**", "~", "==", "<", "in", "and", "or", "not in", "!=", ">="];
     let n_ops = if thorough { 12000 } else { 2000 };
@@ -2022,6 +2228,158 @@ fn gen_builtin_cases(out: &mut Vec<String>, rng: &mut Rng, thorough: bool) {
             _ => format!("{{% for k in ({} {} {}) %}}{{{{ k }}}}{{% endfor %}}", a, op, b),
         };
         out.push(format!("t op:{} {} {}", op.replace(' ', "_"), i % 2, hex(src.as_bytes())));
+    }
+}
+
+// ---- builtin x value kind in every position x undefined behaviour ---------------------------------
+/// what every `kp` template starts with: a set-block capture and a macro whose results are strings
+/// marked safe under auto-escaping (`cap`, `mac()`)
+const KP_PREAMBLE: &str = "{% set cap %}<b>%s</b>%s|{}{% endset %}{% macro mac() %}<u>%s</u>{}{% endmacro %}";
+
+/// one or more representatives of every value kind as the receiver; strings in every safety state
+/// (plain, safe from the host, made safe by a filter, captured, macro result, escaped) x content that the
+/// string-interpreting builtins act on (conversions, markup, separators)
+const KP_RECV: &[&str] = &[
+    "undefinedvar", "m.nosuch", "n", "t", "i3", "big", "fl", "s", "pfmt", "ms", "'{}|{0}|{a}'", "safe", "sfmt", "pfmt|safe", "cap", "mac()",
+    "pfmt|e", "by", "xs", "exs", "users", "m", "it", "bad3", "namespace(a=1)", "range", "small", "ubig", "nhuge", "uhuge",
+    // thorough only from here
+    "users[0].nosuch", "f", "i0", "im", "huge", "nan", "es", "es|safe", "'{}|{0}|{a}'|safe", "ss", "mixed", "em", "once", "range(3)", "(1, 2)", "badlist", "loop",
+];
+const KP_RECV_QUICK: usize = 30;
+
+const KP_ARGS: &[&str] = &[
+    "undefinedvar", "m.nosuch", "n", "t", "i0", "i3", "big", "fl", "s", "'name'", "pfmt", "sfmt", "by", "xs", "m", "it", "bad3", "range", "im", "small", "ubig", "nhuge", "uhuge",
+    // thorough only from here
+    "users[0].nosuch", "f", "huge", "nan", "es", "safe", "cap", "mac()", "exs", "users", "em", "once", "namespace()", "badlist",
+];
+const KP_ARGS_QUICK: usize = 23;
+
+/// the keyword-argument names the builtins of the crate and of minijinja-contrib ask for
+/// (`kwargs.get::<T>("name")` / `kwargs.has("name")` in the sources this binary was built against)
+fn kwarg_names() -> Vec<String> {
+    let mut v = vec![];
+    for src in [
+        include_str!("/repo/minijinja/src/filters.rs"),
+        include_str!("/repo/minijinja/src/tests.rs"),
+        include_str!("/repo/minijinja/src/functions.rs"),
+        include_str!("/repo/minijinja-contrib/src/filters/mod.rs"),
+        include_str!("/repo/minijinja-contrib/src/globals.rs"),
+        PYCOMPAT_RS,
+    ] {
+        let mut i = 0;
+        while let Some(p) = src[i..].find("kwargs.") {
+            let rest = &src[i + p + 7..];
+            i += p + 7;
+            if !(rest.starts_with("get") || rest.starts_with("has") || rest.starts_with("peek")) {
+                continue;
+            }
+            let line = rest.split('\n').next().unwrap_or("");
+            if let Some(q) = line.find("(\"") {
+                let name = &line[q + 2..];
+                if let Some(e) = name.find('"') {
+                    let name = &name[..e];
+                    if !name.is_empty() && name.chars().all(|c| c.is_ascii_alphanumeric() || c == '_') {
+                        v.push(name.to_string());
+                    }
+                }
+            }
+        }
+    }
+    v.sort();
+    v.dedup();
+    v
+}
+
+fn kp_is_undefined(x: &str) -> bool {
+    x == "undefinedvar" || x.ends_with(".nosuch")
+}
+
+/// every callable name x every receiver kind x {no argument, every kind as the only argument} exhaustively,
+/// every kind in the second / third position behind friendly arguments (receiver rotating), as a keyword
+/// argument; whenever an undefined value is involved the case also runs under the other undefined
+/// behaviours (quick: one of the three, rotating; thorough: all three).  Every fifth case goes through
+/// compile_expression + eval instead of a template.
+fn gen_kindpos_cases(out: &mut Vec<String>, thorough: bool) {
+    let recvs = if thorough { KP_RECV } else { &KP_RECV[..KP_RECV_QUICK] };
+    let args = if thorough { KP_ARGS } else { &KP_ARGS[..KP_ARGS_QUICK] };
+    let friendly = ["1", "'name'", "2", "s", "xs", "'%s'"];
+    let mut names: Vec<(String, String)> = vec![];
+    for n in builtin_names("build_builtin_filters").into_iter().chain(contrib_names("filter")) {
+        names.push(("filter".into(), n));
+    }
+    for n in builtin_names("build_builtin_tests") {
+        names.push(("test".into(), n));
+    }
+    for n in builtin_names("build_globals").into_iter().chain(contrib_names("function")) {
+        names.push(("function".into(), n));
+    }
+    for n in pycompat_methods() {
+        names.push(("method".into(), n));
+    }
+    let mk = |fam: &str, name: &str, r: &str, al: &str, n: usize| -> String {
+        // the second entry point of filters and tests: by name through map / select (always for the
+        // operator-named tests, which `is` cannot spell)
+        let ident = name.chars().all(|c| c.is_ascii_alphanumeric() || c == '_');
+        if (fam == "filter" || fam == "test") && (!ident || n % 4 == 3) {
+            let via = if fam == "filter" { "map" } else if n % 8 == 3 { "reject" } else { "select" };
+            return if al.is_empty() { format!("[{}]|{}('{}')|list", r, via, name) } else { format!("[{}]|{}('{}', {})|list", r, via, name, al) };
+        }
+        match fam {
+            "filter" => if al.is_empty() { format!("{}|{}", r, name) } else { format!("{}|{}({})", r, name, al) },
+            "test" => if al.is_empty() { format!("{} is {}", r, name) } else { format!("{} is {}({})", r, name, al) },
+            "function" => if al.is_empty() { format!("{}({})", name, r) } else { format!("{}({}, {})", name, r, al) },
+            _ => format!("({}).{}({})", r, name, al),
+        }
+    };
+    let kws = kwarg_names();
+    let cnt = std::cell::Cell::new(0usize);
+    for (fam, name) in &names {
+        let label = format!("kp:{}:{}", fam, name);
+        let emit = |out: &mut Vec<String>, r: &str, al: &str, undef: bool| {
+            let n = cnt.get();
+            let ex = mk(fam, name, r, al, n);
+            let needs_pre = ex.contains("cap") || ex.contains("mac()") || ex.contains("loop");
+            let ubs: Vec<usize> = if !undef { vec![0] } else if thorough { vec![0, 1, 2, 3] } else { vec![0, 1 + n % 3] };
+            for ub in ubs {
+                let which = n % 4 % 2 + 4 * ub; // contexts 0 / 1 (= .txt / .html), undefined behaviour ub
+                if n % 5 == 4 && !needs_pre {
+                    out.push(format!("e {} {} {}", label, which, hex(ex.as_bytes())));
+                } else {
+                    let src = if ex.contains("loop") {
+                        format!("{}{{% for q in xs %}}{{{{ {} }}}}{{% endfor %}}", KP_PREAMBLE, ex)
+                    } else {
+                        format!("{}{{{{ {} }}}}", KP_PREAMBLE, ex)
+                    };
+                    out.push(format!("t {} {} {}", label, which, hex(src.as_bytes())));
+                }
+            }
+            cnt.set(n + 1);
+        };
+        for r in recvs.iter() {
+            emit(out, r, "", kp_is_undefined(r));
+            for a in args {
+                emit(out, r, a, kp_is_undefined(r) || kp_is_undefined(a));
+            }
+        }
+        for (ai, a) in args.iter().enumerate() {
+            let n = cnt.get();
+            let r = recvs[(ai * 7 + n) % recvs.len()];
+            let f1 = friendly[(ai + n) % friendly.len()];
+            let f2 = friendly[(ai + n / 3 + 1) % friendly.len()];
+            let u = kp_is_undefined(r) || kp_is_undefined(a);
+            emit(out, r, &format!("{}, {}", f1, a), u);
+            emit(out, r, &format!("{}, {}, {}", f1, f2, a), u);
+            emit(out, r, &format!("{}, {}", a, f2), u);
+            emit(out, r, &format!("{}, {}", a, a), u);
+        }
+        for (ki, kw) in kws.iter().enumerate() {
+            for j in 0..2 {
+                let n = cnt.get();
+                let a = args[(ki * 5 + j * 7 + n) % args.len()];
+                let r = recvs[(ki * 3 + j + n) % recvs.len()];
+                emit(out, r, &format!("{}={}", kw, a), kp_is_undefined(r) || kp_is_undefined(a));
+            }
+        }
     }
 }
 
@@ -2047,6 +2405,42 @@ fn gen_format_cases(out: &mut Vec<String>, rng: &mut Rng, thorough: bool) {
             }
         }
     };
+    // the conversion grammar crossed exhaustively: every conversion type x flag x width x precision, the
+    // consumed argument of every kind (multi-byte strings, special floats, integers of every width, …)
+    {
+        let widths: &[&str] = if thorough { &["", "0", "1", "2", "3", "5", "12"] } else { &["", "1", "3", "12"] };
+        let precs: &[&str] = if thorough { &["", ".", ".0", ".1", ".2", ".3", ".4", ".5", ".9", ".17"] } else { &["", ".0", ".1", ".2", ".3", ".5", ".17"] };
+        for ty in ["d", "i", "o", "x", "X", "e", "E", "f", "F", "g", "G", "c", "s", "r", "a", "u"] {
+            for flag in ["", "0", "-", "+", "#"] {
+                for w in widths {
+                    for p in precs {
+                        if !thorough && (flag == "+" || flag == "#") && !(w.is_empty() || p.is_empty()) {
+                            continue;
+                        }
+                        let spec = format!("%{}{}{}{}|", flag, w, p, ty);
+                        for a in 6..FMT_ARGSETS {
+                            out.push(format!("f p {} {}", a, hex(spec.as_bytes())));
+                        }
+                    }
+                }
+            }
+        }
+        for ty in ["", "s", "d", "b", "o", "x", "X", "c", "e", "E", "f", "F", "g", "G", "n", "%"] {
+            for flag in ["", "<", "^", "é>", "=", "0", "+", ","] {
+                for w in widths {
+                    for p in precs {
+                        if !thorough && matches!(flag, "^" | "é>" | "+" | ",") && !(w.is_empty() || p.is_empty()) {
+                            continue;
+                        }
+                        let spec = format!("{{:{}{}{}{}}}|", flag, w, p, ty);
+                        for a in 6..FMT_ARGSETS {
+                            out.push(format!("f s {} {}", a, hex(spec.as_bytes())));
+                        }
+                    }
+                }
+            }
+        }
+    }
     let mut n = 0usize;
     for (style, base) in [("p", printf_base), ("s", sfmt_base)] {
         for b in base {
@@ -2107,7 +2501,7 @@ fn gen_format_cases(out: &mut Vec<String>, rng: &mut Rng, thorough: bool) {
                 let cut = char_floor(&sp, rng.below(sp.len() as u64 + 1) as usize);
                 sp.truncate(cut);
             }
-            out.push(format!("f {} {} {}", style, rng.below(6), hex(sp.as_bytes())));
+            out.push(format!("f {} {} {}", style, rng.below(FMT_ARGSETS as u64), hex(sp.as_bytes())));
             // the same spec through the `format` filter of a template (printf style)
             if style == "p" && !sp.contains('\'') && !sp.contains('\\') && rng.chance(1, 3) {
                 let src = format!("{{{{ '{}'|format(1, 2.5, 'é€', **{{'é': 1, 'a': xs, 'k': m}}) }}}}{{{{ '{}'|format(ms) }}}}", sp, sp);
@@ -2117,7 +2511,55 @@ fn gen_format_cases(out: &mut Vec<String>, rng: &mut Rng, thorough: bool) {
     }
 }
 
+/// boundary integers of every representation a `Value` has (I64, U64, I128, U128)
+const INTOP_BOX: &[&str] = &[
+    "0", "1", "-1", "2", "-2", "3", "-3", "7", "10", "63", "64", "127", "128", "255", "256", "2147483647", "4294967295", "4294967296",
+    "4294967297", "9223372036854775807", "9223372036854775808", "-9223372036854775808", "-9223372036854775809",
+    "18446744073709551615", "18446744073709551616", "10000000000000000000", "13043817825332782212",
+    "170141183460469231731687303715884105727", "170141183460469231731687303715884105728",
+    "-170141183460469231731687303715884105728", "-170141183460469231731687303715884105727",
+    "340282366920938463463374607431768211455", "-85070591730234615865843651857942052864",
+];
+
+fn gen_intop_cases(out: &mut Vec<String>, thorough: bool) {
+    for op in ["add", "sub", "mul", "rem", "intdiv", "pow"] {
+        for a in INTOP_BOX {
+            for b in INTOP_BOX {
+                out.push(format!("k intop {} {} {}", op, a, b));
+                if thorough || matches!(*b, "0" | "-1" | "2" | "4294967296" | "-9223372036854775808") {
+                    out.push(format!("k intoplit {} {} {}", op, a, b));
+                }
+            }
+        }
+    }
+    for op in ["neg", "abs"] {
+        for a in INTOP_BOX {
+            out.push(format!("k intop {} {} 0", op, a));
+            out.push(format!("k intoplit {} {} 0", op, a));
+        }
+    }
+}
+
 fn gen_kernel_cases(out: &mut Vec<String>, thorough: bool) {
+    gen_intop_cases(out, thorough);
+    // strings over an alphabet of every escaping class and UTF-8 width: all of length <= 3 (thorough: 4)
+    {
+        let alpha: [u32; 16] = [97, 39, 34, 92, 10, 9, 0, 127, 128, 133, 159, 160, 233, 8364, 0x1D11E, 0x2028];
+        out.push("k reprstr _".to_string());
+        let maxlen = if thorough { 4 } else { 3 };
+        let mut level: Vec<String> = vec![String::new()];
+        for _ in 0..maxlen {
+            let mut next = vec![];
+            for p in &level {
+                for a in alpha {
+                    let s = if p.is_empty() { a.to_string() } else { format!("{},{}", p, a) };
+                    out.push(format!("k reprstr {}", s));
+                    next.push(s);
+                }
+            }
+            level = next;
+        }
+    }
     // range: boundary box
     let rb: &[&str] = &["-9223372036854775808", "-9223372036854775807", "-4611686018427387904", "-100001", "-100000", "-7", "-2", "-1", "0", "1", "2", "3", "7", "99999", "100000", "100001", "4611686018427387904", "9223372036854775806", "9223372036854775807"];
     let rs: &[&str] = &["_", "-9223372036854775808", "-9223372036854775807", "-4611686018427387904", "-100000", "-3", "-2", "-1", "0", "1", "2", "3", "100000", "4611686018427387904", "9223372036854775807"];
@@ -2177,7 +2619,7 @@ fn gen_kernel_cases(out: &mut Vec<String>, thorough: bool) {
             // but it exhausts the workers' 2 GiB cap depending on what ran before
             out.push(format!("k tojson {}", w));
         }
-        for st in ["pw", "pz", "pp", "ps", "pg", "sw", "sz", "sc", "sg", "sp"] {
+        for st in ["pw", "pz", "pp", "ps", "pg", "ph", "sw", "sz", "sc", "sg", "sp", "sh"] {
             if w.starts_with('-') {
                 continue;
             }
@@ -2286,7 +2728,13 @@ fn dict_tokens() -> Vec<String> {
 }
 
 fn seeds() -> Vec<String> {
-    let mut v = vec![];
+    // constructs the repository's seeds do not contain
+    let mut v: Vec<String> = [
+        "{% raw %}{{ x }}{% endraw %}|{% raw -%} a {%- endraw %}|{%- raw %}{% endraw -%}",
+        "a\n{% raw %}\nbody {% if %}\n{% endraw %}\nb\n  {% raw %}  {# c #}  {% endraw %}  \n",
+        "{# c1 #}\n  {# c2 -#}  \n{#- c3 #}x{#+ c4 +#}\n",
+        "<ul>\n  {% for item in xs %}\n    <li>{{ item }}</li>\n  {%+ endfor %}\n</ul>\n{%- if x +%}\n y\n{% endif -%}\n",
+    ].iter().map(|s| s.to_string()).collect();
     for dir in ["/repo/fuzz/seeds/render", "/repo/fuzz/seeds/add_template", "/repo/minijinja/tests/inputs", "/repo/minijinja/tests/inputs/refs", "/repo/minijinja/tests/parser-inputs", "/repo/minijinja/tests/lexer-inputs", "/repo/minijinja/tests/fragment-inputs"] {
         if let Ok(rd) = std::fs::read_dir(dir) {
             let mut ps: Vec<_> = rd.filter_map(|e| e.ok()).map(|e| e.path()).filter(|p| p.is_file()).collect();
@@ -2444,6 +2892,78 @@ fn mutate(rng: &mut Rng, seeds: &[String], dict: &[String]) -> String {
     s
 }
 
+fn cfg_number(ub: usize, ws: usize, syn: usize, misc: usize) -> usize {
+    ub % 4 + 4 * (ws % 8 + 8 * (syn % NSYN + NSYN * (misc % 4)))
+}
+
+/// byte-level damage with the tokens of syntax configuration `syn`: its delimiters (with and without
+/// the whitespace-control characters), its line statement / line comment prefixes at line starts and in
+/// the middle of lines, pieces of its delimiters
+fn mutate_in_syntax(rng: &mut Rng, mut s: String, syn: usize) -> String {
+    let (d, ls, lc) = syntax_parts(syn);
+    if rng.chance(1, 4) {
+        // one kind of whitespace (of any width) behind every end delimiter and in front of every start
+        // delimiter: what trim_blocks / lstrip_blocks / the whitespace-control characters act on
+        let ws = pick_s(rng, &[" ", "\n", "\r\n", "\r", "\t", "\u{a0}", "\u{85}", "\u{2028}", "\u{2029}", "\u{3000}", "\u{b}", "\u{c}", "\u{1680}", " \u{a0}\n", "\u{2028}\n"]);
+        let which = rng.below(3);
+        let mut t = String::with_capacity(s.len() * 2);
+        let mut i = 0;
+        'outer: while i < s.len() {
+            for (k, delim) in d.iter().enumerate() {
+                if s[i..].starts_with(delim) {
+                    if k % 2 == 0 && which != 1 {
+                        t.push_str(ws);
+                    }
+                    t.push_str(delim);
+                    if k % 2 == 1 && which != 2 {
+                        t.push_str(ws);
+                    }
+                    i += delim.len();
+                    continue 'outer;
+                }
+            }
+            let c = s[i..].chars().next().unwrap();
+            t.push(c);
+            i += c.len_utf8();
+        }
+        s = t;
+    }
+    let rounds = rng.below(3);
+    for _ in 0..rounds {
+        let at = char_floor(&s, rng.below(s.len() as u64 + 1) as usize);
+        let k = rng.below(6) as usize;
+        let piece = match rng.below(9) {
+            0 => d[k].to_string(),
+            1 => format!("{}-", d[k & !1usize]),
+            2 => format!("-{}", d[k | 1]),
+            3 => format!("{}+", d[k & !1usize]),
+            4 => {
+                // a delimiter cut inside (multi-byte delimiters: at a char boundary)
+                let t = d[k];
+                t[..char_floor(t, 1 + rng.below(t.len() as u64) as usize)].to_string()
+            }
+            5 => match ls {
+                Some(p) => format!("\n {} {}\n", p, pick_s(rng, &["for q in xs", "endfor", "if x", "else", "endif", "set q = 1", "break", "raw", "endraw", "", "for q in xs:", "include 'inc.txt'"])),
+                None => "\n".to_string(),
+            },
+            6 => match lc {
+                Some(p) => format!("\n{} c {}\n", p, d[k]),
+                None => "\r\n".to_string(),
+            },
+            7 => match ls {
+                Some(p) => p.to_string(),
+                None => d[k].repeat(2),
+            },
+            _ => format!("{} {}", d[2], d[3]),
+        };
+        // whitespace of every width next to the piece (the whitespace switches slice around delimiters)
+        let ws = ["", "", " ", "\n", "\r\n", "\t", "\u{a0}", "\u{85}", "\u{2028}", "\u{3000}", "\u{b}", "\u{c}", "\u{feff}", "\u{200b}"];
+        let piece = format!("{}{}{}", pick_s(rng, &ws), piece, pick_s(rng, &ws));
+        s.insert_str(at, &piece);
+    }
+    s
+}
+
 fn gen_cases(thorough: bool) -> Vec<String> {
     // mjh::Rng states of neighbouring seeds are shifted copies of each other (state = (seed + k)·C + D);
     // spread the seed first so that VERIF_SEED=n and n+1 give unrelated streams
@@ -2511,15 +3031,21 @@ fn gen_cases(thorough: bool) -> Vec<String> {
         ks.dedup();
         for kind in WIDTH_KINDS {
             for &k in &ks {
-                if k > 70_000 || (k > 2100 && *kind == "blocks") || (k > 2100 && !thorough && !matches!(*kind, "vars" | "lines" | "longline" | "longname")) {
+                if k > 70_000 || (k > 2100 && *kind == "blocks") || (k > 2100 && !thorough && !matches!(*kind, "vars" | "lines" | "longline" | "longname" | "intval")) {
                     continue;
                 }
                 cases.push(format!("d w:{} {}", kind, k));
             }
         }
         for k in [65_534usize, 65_535, 65_536, 65_537] {
-            for kind in ["vars", "lines", "longline", "longname", "longstr"] {
+            for kind in ["vars", "lines", "longline", "longname", "longstr", "intval"] {
                 cases.push(format!("d w:{} {}", kind, k));
+            }
+            // everything whose count travels in a u16 / is cast: at the u16 boundary whatever the parser's limits are
+            if k == 65_535 || k == 65_536 {
+                for kind in ["callargs", "kwargs", "macroargs", "callblkargs", "nskwargs", "unpack", "looptargets", "includelist", "filterchain", "sets", "loopindex"] {
+                    cases.push(format!("d w:{} {}", kind, k));
+                }
             }
         }
     }
@@ -2574,6 +3100,7 @@ fn gen_cases(thorough: bool) -> Vec<String> {
     }
     // (2) builtins, format strings
     gen_builtin_cases(&mut cases, &mut rng, thorough);
+    gen_kindpos_cases(&mut cases, thorough);
     gen_format_cases(&mut cases, &mut rng, thorough);
     // (3) mutated templates: all seeds unchanged first, then mutants
     let seeds = seeds();
@@ -2585,6 +3112,13 @@ fn gen_cases(thorough: bool) -> Vec<String> {
         if i % 3 == 0 {
             cases.push(format!("e mut:seedexpr 0 {}", hex(s.as_bytes())));
         }
+        // every seed under every syntax configuration (rewritten into it), the whitespace switches,
+        // undefined behaviours and the other switches rotating
+        for syn in 1..NSYN {
+            let cfg = cfg_number((i + syn) % 4, (i * 3 + syn) % 8, syn, (i / 2 + syn) % 4);
+            cases.push(format!("t mut:seedcfg {} {}", i % 4 + 4 * cfg, hex(translate_syntax(s, syn).as_bytes())));
+        }
+        cases.push(format!("t mut:seedcfg {} {}", i % 4 + 4 * cfg_number(i % 4, 1 + i % 7, 0, i % 4), hex(s.as_bytes())));
     }
     let n_mut = if thorough { 100_000 } else { 15_000 };
     for i in 0..n_mut {
@@ -2592,9 +3126,17 @@ fn gen_cases(thorough: bool) -> Vec<String> {
         if i % 10 == 9 {
             // expression position: take the inside of the first {{ }} if any
             let inner = m.split("{{").nth(1).and_then(|r| r.split("}}").next()).unwrap_or(&m).to_string();
-            cases.push(format!("e mut:expr {} {}", i % 4, hex(inner.as_bytes())));
-        } else {
+            let cfg = if i % 20 == 9 { 0 } else { cfg_number(rng.below(4) as usize, 0, 0, rng.below(3) as usize) };
+            cases.push(format!("e mut:expr {} {}", i % 4 + 4 * cfg, hex(inner.as_bytes())));
+        } else if i % 2 == 0 {
             cases.push(format!("t mut:tmpl {} {}", i % 4, hex(m.as_bytes())));
+        } else {
+            // the same kind of mutant under a non-default configuration: rewritten into the syntax, then
+            // damaged once more with the tokens of that syntax
+            let syn = rng.below(NSYN as u64) as usize;
+            let cfg = cfg_number(rng.below(4) as usize, rng.below(8) as usize, syn, rng.below(4) as usize);
+            let m = mutate_in_syntax(&mut rng, translate_syntax(&m, syn), syn);
+            cases.push(format!("t mut:cfg {} {}", i % 4 + 4 * cfg, hex(m.as_bytes())));
         }
     }
     cases
